@@ -240,8 +240,12 @@ class QuotaDistributor:
             if self.on_overaward == 'ignore':
                 return selected
             elif self.on_overaward == 'error':
+                quota_name = getattr(
+                    self.quota_function, '__name__',
+                    type(self.quota_function).__name__
+                )
                 raise votelib.evaluate.core.VotingSystemError(
-                    f'quota {self.quota_function.__name__} awarded total'
+                    f'quota {quota_name} awarded total'
                     f' {total_awarded} seats, {n_seats} expected'
                 )
             elif self.on_overaward == 'subtract':
